@@ -44,6 +44,7 @@ theorem c20_on_source (t : AT) (rs : List Rec) (hperm : rs.Perm (vals (extract t
 
 
 
+
 -- BEGIN PINS (written by bin/mkpins; do not edit by hand)
 /-- the Go functions this property's model and obligations were written against have exactly the
 pinned skeletons (SHA-256 prefix of the atom list) -/
